@@ -178,6 +178,7 @@ fn cmd_front(casefile: &str, with_plans: bool, with_doc: bool) {
             if with_plans {
                 writeln!(out, "@plans {}", plan::sx_plans(m)).unwrap();
             }
+            writeln!(out, "@sizes {}", plan::sx_sizes(m)).unwrap();
         }
         writeln!(out, "@end").unwrap();
     }
